@@ -126,7 +126,7 @@ def run_C03(tier, seed):
     def scaled():
         b = stages.api_stage("C03", "batch", tier, seed, groups=("rist",), scale="2:256", scale_min=0,
                              limit=400 if Q(tier) else 5000,
-                             must_fn=lambda s: s["sc"]["skew"] != [0, 0, 0] or any(m["n"] == 64 for m in s["sc"]["members"]) or any(m.get("bseed") == 7 for m in s["sc"]["members"]))
+                             must_fn=lambda s: s["sc"]["skew"] != [0, 0, 0] or any(m["n"] == 64 or m["m"] >= 16 for m in s["sc"]["members"]) or any(m.get("bseed") == 7 for m in s["sc"]["members"]))
         b.name = "api:batch@256"
         return b
 
@@ -213,7 +213,10 @@ def run_C04(tier, seed):
     sc4, _ = stages.pick_scenarios("recover", tier, seed, lambda s: len(s["sc"]["members"]) >= 2 and len({m["label"] for m in s["sc"]["members"]}) >= 2, 60 if q else 600, prop="C04")
     # batches in which one member's statement names other generators (H, a G_k), also as the strictly largest member in a later
     # position: either the batch is refused before any challenge, or that member's challenges depend on ITS generators
-    dis = lambda s: any(m["v"]["pgH"] != 0 or m["v"]["pgG"] != 0 for m in s["sc"]["members"])
+    # (statements whose cached generator ENCODINGS alone were altered are left to the API-level stage: which of the two the
+    #  statement "declares" is then ambiguous, and the trace compares with the encodings of the points)
+    cache_only = lambda s: any(m["v"]["pgH"] == 2 or m["v"]["pgG"] == 200 for m in s["sc"]["members"])
+    dis = lambda s: any(m["v"]["pgH"] != 0 or m["v"]["pgG"] != 0 for m in s["sc"]["members"]) and not cache_only(s)
     big_later = lambda s: any(x > 0 and (m["v"]["pgH"] != 0 or m["v"]["pgG"] != 0) and m["m"] > max(o["m"] for y, o in enumerate(s["sc"]["members"]) if y != x)
                               for x, m in enumerate(s["sc"]["members"]))
     sc5, _ = stages.pick_scenarios("batch", tier, seed, dis, 40 if q else 400, prop="C04", must=big_later, must_count=10 if q else 60)
@@ -221,7 +224,7 @@ def run_C04(tier, seed):
     res.append(stages.trace_stage("C04", "dep-prove", sc3, seed, module="TraceProve", consts={"Strict": "FALSE", "CheckArith": "FALSE", "CrossFresh": "FALSE"}, calls="prove", arith=False, per_file=40))
     # RP: honest proofs re-verified under a perturbed context are rejected
     res.append(stages.api_stage("C04", "bind", tier, seed))
-    res.append(stages.api_stage("C04", "batch", tier, seed, groups=("fm",), filter_fn=dis))
+    res.append(stages.api_stage("C04", "batch", tier, seed, groups=("fm",), filter_fn=lambda s: dis(s) or cache_only(s)))
     # beyond the chunk limit every member is still verified in ITS context (members made in different contexts, at 256-scale)
     ctxs = lambda s: len({m["label"] for m in s["sc"]["members"]}) >= 2 and s["sc"]["skew"] == [0, 0, 0]
     big = stages.api_stage("C04", "batch", tier, seed, groups=("rist",), scale="2:256", scale_min=0, limit=25 if q else 400, filter_fn=ctxs)
